@@ -31,11 +31,13 @@ def main(argv=None):
         # what the normalisation layer did to the tree before the rules looked at it (sa/inline.py, sa/desugar.py)
         chk.extra['normalisation'] = {
             'explanation': 'private helpers that are not part of the confirmed tree (sa/known_helpers.json) are expanded at '
-                           'their call sites; match statements are rewritten as if-chains; nothing of the analysed code runs',
+                           'their call sites; match statements are rewritten as if-chains; a private helper of the confirmed tree that was '
+                           'renamed is found again under its old name (sa/renames.py); nothing of the analysed code runs',
             'helper_call_sites_expanded': repo.n_inlined,
             'helpers_expanded': sorted({g for _f, g in getattr(repo, 'inlined_sites', [])}),
             'helpers_removed_from_index': list(getattr(repo, 'inlined_helpers', [])),
-            'match_statements_rewritten': getattr(repo, 'n_match_desugared', 0)}
+            'match_statements_rewritten': getattr(repo, 'n_match_desugared', 0),
+            'renamed_private_helpers_followed': {old: f.fq for old, f in sorted(getattr(repo, 'renamed', {}).items())}}
         mod.run(chk, repo, args.tier)
         from . import generic
         generic.run(chk, repo, pid)
